@@ -83,7 +83,7 @@ Ltac proj_simpl ::= cbn [fst snd m00 m01 m10 m11 v0 v1 v2 v3 Nat.eqb].
 (* call-by-value unfolding of the spec vocabulary (projections reduce as soon
    as their argument is a constructor, so terms do not blow up) *)
 Ltac spec_cbv :=
-  cbv beta iota delta
+  cbv beta iota zeta delta
     [fst snd cre cim cadd csub cneg cmul cconj cnorm2 cinv cdiv cscale cofR c0 c1 ci
      m00 m01 m10 m11 m2zero m2id m2add m2sub m2neg m2mul m2scale m2conj m2herm m2trace m2det m2norm m2inv
      m2list clist v0 v1 v2 v3 v4nth v4list v4add v4scale Nat.eqb
@@ -102,6 +102,13 @@ Proof.
   apply m2_eq; destruct s; unfold rho, phiH, sigma; spec_cbv.
   repeat (apply f_equal2; [ring|]); reflexivity.
 Qed.
+
+Ltac spec_cbv_in H :=
+  cbv beta iota zeta delta
+    [fst snd cre cim cadd csub cneg cmul cconj cnorm2 cinv cdiv cscale cofR c0 c1 ci
+     m00 m01 m10 m11 m2zero m2id m2add m2sub m2neg m2mul m2scale m2conj m2herm m2trace m2det m2norm m2inv
+     m2list clist v0 v1 v2 v3 v4nth v4list v4add v4scale Nat.eqb
+     List.map List.flat_map List.app] in H.
 
 (* ---- Minkowski forms ---- *)
 Definition eta (i j : nat) : R :=
